@@ -1,11 +1,11 @@
-\* two channels, logs <= 2, no probes: measured below
+\* two channels, logs <= 3, page sizes 1 and 2, probes: measured below
 SPECIFICATION Spec
 CONSTANTS
   ChanSeq <- MCChanSeq2
-  MaxLen = 2
-  Cfgs <- MCCfgsSmall
+  MaxLen = 3
+  Cfgs <- MCCfgsMsg
   BadVariants = {"dropLast"}
-  MaxAppends = 0
+  MaxAppends = 1
   MaxAttempts = 2
 VIEW View
 INVARIANTS TypeOK C11_NothingAboveHW C11_NoOrphanRows C11_WarmFresh C11_OtherSlotKept
